@@ -27,8 +27,12 @@ theorem routers_bounded (s : State) (h : Reachable s) :
 theorem deleteRouter_removes (s s' : State) (id : MsgId) (hs : step s (.deleteRouter id) = some s') :
     hasRouter s' id = false := C05.deleteRouter_removes s s' id hs
 
-/-- a broken connection leaves only streaming routers behind -/
+/-- a broken connection leaves no router behind -/
 theorem streamDown_clears (s s' : State) (hs : step s .streamDown = some s') :
-    ∀ x ∈ s'.routers, x.streaming = true := (C05.streamDown_answers_all s s' hs).2
+    s'.routers = [] := (C05.streamDown_answers_all s s' hs).2
+
+/-- a request that has been answered with an error keeps no router, streaming or not -/
+theorem no_router_after_error (s : State) (h : Reachable s) (d : Delivery) (hd : d ∈ s.deliveries)
+    (he : d.resp.isErr = true) : hasRouter s d.id = false := C05.no_router_after_error s h d hd he
 
 end GorumsV.C18
